@@ -34,7 +34,14 @@ static int sp_veto(u32 rule, u64 begin) { return T_veto[cov_vslot(rule)][begin <
 u32 x_verif_veto(u32 rule, u64 begin, u64 end) { (void)end; return (u32)sp_veto(rule, begin); }
 
 /* std::map::at on a missing key throws std::out_of_range in the real library; the stand-in map reports it here first */
-void x_verif_map_at_missing(void) { cov_at_missing++; CHECK(0, "std::map::at is never asked for a missing key (every rule met at run time was inserted by visit<>, every branch by subs_t)"); }
+/* (a solver-side check only: the genuine std::map of the real build has no such callback — natively both builds show the
+ * consequence, an exception that is not a parse outcome, through the wrapper's out[0] == 9) */
+void x_verif_map_at_missing(void) {
+  cov_at_missing++;
+#ifdef __CPROVER__
+  CHECK(0, "std::map::at is never asked for a missing key (every rule met at run time was inserted by visit<>, every branch by subs_t)");
+#endif
+}
 void x_verif_capacity_exceeded(void) { CHECK(0, "stand-in container capacity suffices for every run within the bounds"); }
 
 static void cov_setup(void) {
